@@ -230,9 +230,13 @@ fn exec_laws(sc: &Scenario) -> Report {
                 None => break,
             };
             if finished {
-                // after finishing: eta and duration are zero
-                if eta != Duration::ZERO || dur != Duration::ZERO {
-                    r.violate("C09.eta_relation", format!("{at}: finished bar reports eta {eta:?} duration {dur:?}"));
+                // after finishing: eta is zero, and duration is elapsed plus eta like everywhere
+                if eta != Duration::ZERO {
+                    r.violate("C09.eta_relation", format!("{at}: finished bar reports eta {eta:?}"));
+                    break;
+                }
+                if dur != el {
+                    r.violate("C09.duration_relation", format!("{at}: finished bar: duration() = {dur:?} but elapsed {el:?} + eta {eta:?} = {el:?}"));
                     break;
                 }
                 // an abandoned bar did exactly the steps its samples showed: whatever rate it
@@ -274,8 +278,12 @@ fn exec_laws(sc: &Scenario) -> Report {
             // (6) relations at this frozen instant
             match cur_len {
                 None => {
-                    if eta != Duration::ZERO || dur != Duration::ZERO {
-                        r.violate("C09.eta_relation", format!("{at}: unknown length but eta {eta:?} duration {dur:?}"));
+                    if eta != Duration::ZERO {
+                        r.violate("C09.eta_relation", format!("{at}: unknown length but eta {eta:?}"));
+                        break;
+                    }
+                    if dur != el {
+                        r.violate("C09.duration_relation", format!("{at}: unknown length: duration() = {dur:?} but elapsed {el:?} + eta {eta:?} = {el:?}"));
                         break;
                     }
                 }
@@ -863,7 +871,15 @@ impl Check for C09 {
             Op::new("gap").n(5_000_000_000),
             Op::new("query"),
         ]];
-        vec![s]
+        // duration == elapsed + eta also once finished, and without a length (fix 4f7a316)
+        let mut f = Scenario::new("C09", "laws", 92);
+        f.set("len_known", 1);
+        f.set("len0", 10);
+        f.threads = vec![vec![Op::new("gap").n(1_000_000_000), Op::new("update").n(3), Op::new("gap").n(1_000_000_000), Op::new("finish").n(0), Op::new("gap").n(1_000_000), Op::new("query")]];
+        let mut g = Scenario::new("C09", "laws", 93);
+        g.set("len_known", 0);
+        g.threads = vec![vec![Op::new("gap").n(1_000_000_000), Op::new("update").n(3), Op::new("gap").n(1_000_000_000), Op::new("query")]];
+        vec![s, f, g]
     }
     fn gen(&self, rng: &mut Rng, tier: Tier, _index: u64) -> Scenario {
         let n = rng.range(1, if tier == Tier::Quick { 30 } else { 60 });
